@@ -101,6 +101,22 @@ def unknown_waveform_rejected(name: str) -> bool:
     return known and cls.wavetype == name
 
 
+def periodic_source_constructors_reject_unknown_waveform(name: str, current: bool, pos: int) -> bool:
+    """
+    pre: len(name) <= 5 and 0 <= pos <= 2
+    post: _
+    """
+    known = name in ('const', 'cos', 'sin', 'rect', 'tri', 'saw')
+    others = [ccp.resistor('R1', ('a', 'b'), R=2.0), ccp.capacitor('C1', ('b', '0'), C=1e-3)]
+    try:
+        if current: c = ccp.periodic_current_source('S', ('a', '0'), wavetype=name, I=1.0, w=10.0, phi=0.0)
+        else: c = ccp.periodic_voltage_source('S', ('a', '0'), wavetype=name, V=1.0, w=10.0)
+        cir = Circuit(others[:pos] + [c] + others[pos:] + [ccp.ground(nodes=('0',))])
+    except pf.UnknownWavetype:
+        return not known
+    return known and cir['S'].value['wavetype'] == name
+
+
 def circuit_loader_unknown_type_rejected(t: str) -> bool:
     """
     pre: len(t) <= 4
